@@ -438,6 +438,10 @@ static const char* describe_state(void) {
   return buf;
 }
 const harness_t* rt_harness(void) { return H; }
+// (A check "a kernel thread enters a blocking poll only with nothing runnable in its own run queues" was tried here and
+// removed: the unchanged tree does that too - fiber_scheduler_next sets an early-woken fiber (still SAVING_STATE_TO_WAIT) aside
+// in store_to and may return NULL, the fiber becomes runnable a moment later and the thread sleeps its 5 ms poll on top of it.
+// The delay is bounded and another thread can steal the fiber; C02 speaks about the state once everything is idle.)
 void rt_install_quiescence(void) {
   vs_set_quiescence_cb(on_quiescence);
   vs_describe_state = describe_state;
